@@ -11,6 +11,8 @@ import (
 	"go/types"
 	"sort"
 	"strings"
+
+	"golang.org/x/tools/go/ssa"
 )
 
 type structSite struct {
@@ -114,4 +116,77 @@ func (c *Ctx) OnlyBuiltBy(typ string, ctors []string, mutable []string, minSites
 		}
 	}
 	c.Check(len(sites) >= minSites, shortName(full)+"/builds/census", nil, fmt.Sprintf("%d construction/assignment sites of %s analysed (at least %d confirmed by hand)", len(sites), shortName(full), minSites))
+}
+
+// ComparesAllFields: an equality helper eq(a, b T) reads every field of T from both parameters
+// (a comparison that silently skips a field makes two different values "equal").
+func (c *Ctx) ComparesAllFields(f *ssa.Function, key string) {
+	var ps []*ssa.Parameter
+	for _, p := range f.Params {
+		if !isCtxType(p.Type()) {
+			ps = append(ps, p)
+		}
+	}
+	if len(ps) != 2 || !types.Identical(ps[0].Type(), ps[1].Type()) {
+		c.Undecided(key, f, "not a two-argument equality helper over one type")
+		return
+	}
+	t := ps[0].Type()
+	if pt, ok := t.Underlying().(*types.Pointer); ok {
+		t = pt.Elem()
+	}
+	st, ok := t.Underlying().(*types.Struct)
+	if !ok {
+		c.Undecided(key, f, "parameters are not structs")
+		return
+	}
+	read := [2]map[int]bool{{}, {}}
+	rootParam := func(v ssa.Value) int {
+		for d := 0; d < 4; d++ {
+			v = strip(v)
+			for i, p := range ps {
+				if v == ssa.Value(p) {
+					return i
+				}
+			}
+			switch x := v.(type) {
+			case *ssa.UnOp:
+				v = x.X
+				continue
+			case *ssa.Alloc:
+				if s := singleStore(x); s != nil {
+					v = s
+					continue
+				}
+			}
+			break
+		}
+		return -1
+	}
+	for _, in := range allInstrs(f) {
+		switch x := in.(type) {
+		case *ssa.FieldAddr:
+			if i := rootParam(x.X); i >= 0 {
+				read[i][x.Field] = true
+			}
+		case *ssa.Field:
+			if i := rootParam(x.X); i >= 0 {
+				read[i][x.Field] = true
+			}
+		}
+	}
+	var missing []string
+	n := 0
+	for i := 0; i < st.NumFields(); i++ {
+		name := st.Field(i).Name()
+		if strings.HasPrefix(name, "XXX_") || !st.Field(i).Exported() {
+			continue
+		}
+		n++
+		if !read[0][i] || !read[1][i] {
+			missing = append(missing, name)
+		}
+	}
+	sort.Strings(missing)
+	c.Check(len(missing) == 0, key, f, fmt.Sprintf("the equality helper reads all %d fields of %s from both arguments; not compared: %v", n, shortName(types.TypeString(t, nil)), missing))
 }
